@@ -1,9 +1,10 @@
 #!/bin/bash
-# usage: tools/collect_r7.sh Cxx ...  — copy a finished round-7 author's output into seeded/ and confirm each change
+# usage: tools/collect_round.sh <round> Cxx ...  — copy a finished author's output of that round into seeded/ and confirm each change
 cd /verif
+R=$1; shift
 for p in "$@"; do
   for k in 1 2 3; do
-    src=/tmp/r7/$p/out/m$k; dst=seeded/$p-r7m$k
+    src=/tmp/r$R/$p/out/m$k; dst=seeded/$p-r${R}m$k
     [ -f $src/patch.diff ] || { echo "$p m$k: no patch"; continue; }
     mkdir -p $dst; cp $src/patch.diff $src/README.md $dst/ 2>/dev/null
     cp $src/demo_test.go $dst/demo_test.go 2>/dev/null || cp $src/demo*_test.go $dst/ 2>/dev/null
